@@ -13,12 +13,13 @@ EXTENDS Props, Build, TLC
 CONSTANTS N, MaxCalls, MaxBatch,
           AddInsteadOfUpdate  \* FALSE; deviation: an existing pair gets a second edge
 
-VARIABLES ue, pre, last, ncalls
-vars == <<ue, pre, last, ncalls>>
+VARIABLES ue, pre, last, ncalls,
+          nf      \* functions added so far: add_fn may come between edge calls; edge calls name functions 1..nf
+vars == <<ue, pre, last, ncalls, nf>>
 
 UserKinds == {"logic", "contains"}
 
-Init == ue = <<>> /\ pre = <<>> /\ ncalls = 0 /\ last = [op |-> "none"]
+Init == ue = <<>> /\ pre = <<>> /\ ncalls = 0 /\ last = [op |-> "none"] /\ nf \in 0..N
 
 Apply1(u, a, b, kind) ==
   IF AddInsteadOfUpdate /\ EdgeIndexOf(u, a, b) # 0
@@ -28,19 +29,25 @@ Apply1(u, a, b, kind) ==
 AddEdge(a, b, kind) ==
   /\ ncalls < MaxCalls
   /\ LET r == Apply1(ue, a, b, kind) IN
-     /\ ue' = r.ue /\ pre' = ue /\ ncalls' = ncalls + 1
+     /\ ue' = r.ue /\ pre' = ue /\ ncalls' = ncalls + 1 /\ nf' = nf
      /\ last' = [op |-> "edge", a |-> a, b |-> b, kind |-> kind, res |-> r.res]
 
 AddEdges(pairs, kind) ==
   /\ ncalls < MaxCalls
   /\ LET r == ApplyEdges(N, ue, pairs, kind) IN
-     /\ ue' = r.ue /\ pre' = ue /\ ncalls' = ncalls + 1
+     /\ ue' = r.ue /\ pre' = ue /\ ncalls' = ncalls + 1 /\ nf' = nf
      /\ last' = [op |-> "edges", pairs |-> pairs, kind |-> kind, res |-> r.res]
 
-Batches == UNION { [1..k -> (1..N) \X (1..N)] : k \in 0..MaxBatch }
+(* add_fn between edge calls: the new function gets the next id; the accepted edges are untouched (Build!ApplyCall) *)
+AddFn ==
+  /\ nf < N
+  /\ nf' = nf + 1 /\ pre' = ue /\ ue' = ApplyCall(N, ue, [op |-> "fn"]).ue /\ last' = [op |-> "fn"] /\ ncalls' = ncalls
 
-Next == \/ \E a, b \in 1..N, kind \in UserKinds : AddEdge(a, b, kind)
+Batches == UNION { [1..k -> (1..nf) \X (1..nf)] : k \in 0..MaxBatch }
+
+Next == \/ \E a, b \in 1..nf, kind \in UserKinds : AddEdge(a, b, kind)
         \/ \E p \in Batches, kind \in UserKinds : AddEdges(p, kind)
+        \/ AddFn
 
 Spec == Init /\ [][Next]_vars
 
@@ -61,6 +68,9 @@ Inv_C16_Edge ==
           /\ \E i \in DOMAIN ue : ue[i] = <<last.a, last.b, last.kind>>          \* the most recent kind wins
           /\ \A i \in DOMAIN pre : <<pre[i][1], pre[i][2]>> # <<last.a, last.b>> => ue[i] = pre[i]
           /\ Len(ue) = Len(pre) + (IF <<last.a, last.b>> \in Pairs(pre) THEN 0 ELSE 1))
+
+(* a function added between edge calls changes nothing that was accepted *)
+Inv_AddFnFrame == last.op = "fn" => ue = pre
 
 (* the incremental descendant map used by the trace monitor agrees with the definition *)
 Inv_DescMap ==
